@@ -5,6 +5,8 @@
 package task
 
 //@ nonnil Executor.Taskfile Executor.Logger Executor.Compiler
+// package-level error values, initialised once by errors.New
+//@ nonnil ErrPreconditionFailed
 
 //@ ghost func onceKey(t *ast.Task) string
 //@ ghost func changedKey(t *ast.Task) string
@@ -200,6 +202,7 @@ package task
 //@   modifies heap
 //@   preserves $RUNDATA
 //@   blocks
+//@   ensures result.1 == nil ==> result.0                                                              [C13]
 //@ func (*Executor).statusOnError
 //@   modifies heap
 //@   preserves $RUNDATA
